@@ -265,6 +265,37 @@ def rule_c(ctx: Context, R: Reporter):
                                         f"(each mode would be fitted from the wrong particles)", key=f"index-space:{m.name}")
                 # p has the same length: p's base is the weights of the same owner selection
     R.floor("C19.c", "resampling-index uses in the factories", n, 1)
+    # hand-written inverse-CDF draws: searchsorted over a running sum returns len(w) when the uniform exceeds the
+    # rounded total, unless the running sum is divided by its last element or the result is clamped
+    for m in list(mc.methods.values()) + [f for f in ctx.prog.functions.values() if f.module is fit_fn(ctx).module and f.cls is None]:
+        flow = flow_of(m.node)
+        for nd in flow.cfg.stmt_nodes():
+            for c in calls_in_node(nd):
+                if (ctx.res.external_name(m, c) or "") != "numpy.searchsorted" or not c.args:
+                    continue
+                from ..dataflow import Resolver as _Res
+
+                a0 = _Res(m.node).resolve(c.args[0], nd)
+                if not any(isinstance(x, ast.Call) and (ctx.res.external_name(m, x) or dotted(x.func)).split(".")[-1] == "cumsum" for x in ast.walk(a0)):
+                    continue
+                normalised = any(isinstance(x, ast.BinOp) and isinstance(x.op, ast.Div) and "[-1]" in norm_text(x.right) for x in ast.walk(a0))
+                if not normalised and isinstance(c.args[0], ast.Name):
+                    for st in walk_no_nested(m.node):
+                        if isinstance(st, ast.AugAssign) and isinstance(st.op, ast.Div) and isinstance(st.target, ast.Name) and st.target.id == c.args[0].id and "[-1]" in norm_text(st.value):
+                            normalised = True
+                # clamped: the call is wrapped in minimum/clip, or its result name is re-bound through one
+                clamped = False
+                for x in walk_no_nested(m.node):
+                    if isinstance(x, ast.Call) and (ctx.res.external_name(m, x) or "") in ("numpy.minimum", "numpy.clip") and any(y is c for a in x.args for y in ast.walk(a)):
+                        clamped = True
+                if isinstance(nd.stmt, ast.Assign) and isinstance(nd.stmt.targets[0], ast.Name):
+                    tname = nd.stmt.targets[0].id
+                    for x in walk_no_nested(m.node):
+                        if isinstance(x, ast.Call) and (ctx.res.external_name(m, x) or "") in ("numpy.minimum", "numpy.clip") and x.args and isinstance(x.args[0], ast.Name) and x.args[0].id == tname:
+                            clamped = True
+                R.check("C19.c", f"{m.short}: an inverse-CDF index (searchsorted over a running sum) is normalised or clamped", normalised or clamped, m, c,
+                        msg=f"{m.short}: `{unparse(c)[:70]}` returns len(weights) whenever the uniform draw exceeds the rounded running total (sums a few ulps below 1 are "
+                            f"common): the index runs past the cluster's rows and the fit raises instead of returning", key=f"inverse-cdf-unclamped:{m.short}")
 
 
 def run(ctx: Context, R: Reporter):
